@@ -25,7 +25,10 @@ TECHNIQUE = 'Coq proof of a queue-discipline state machine over the session trac
 DESIGN_REF = 'DESIGN.md section 5, C03'
 
 PLANS = ['ok', 'ok', 'exit:1', 'exit:10', 'exit:11', 'exit:31', 'exit:40', 'exit:41', 'exit:53', 'exit:100', 'exit:255', 'die:a:0:sig', 'die:a:0:1', 'die:a:0:99',
-         'die:b:0:sig', 'die:b:0:1', 'die:m:5:sig', 'die:m:150:2', 'die:e:0:sig', 'die:e:3:1', 'die:e:1:sig']
+         'die:b:0:sig', 'die:b:0:1', 'die:m:5:sig', 'die:m:150:2', 'die:e:0:sig', 'die:e:3:1', 'die:e:1:sig',
+         # exiting with status 0 without having read everything must not count as success either
+         # (the envelope descriptor is closed at once, so that the server's write fails for sure)
+         'ce:0', 'ce:0', 'ce:1', 'ce:31', 'ce:sig']
 # die:m:<n> only takes effect when the message has at least n octets: n <= 150 is below the size of the trace header alone;
 # the variant beyond the pipe buffer is used only in sessions whose messages are all larger than that
 BIG_PLANS = ['die:m:70000:sig', 'die:m:70000:1', 'die:m:66000:2', 'ok', 'exit:31', 'die:a:0:sig']
